@@ -127,7 +127,7 @@ overflow-checks = false
     return d
 
 
-CHECK_RE = re.compile(r"^Check \d+: (?P<id>\S+)\n\s+- Status: (?P<status>\w+)\n\s+- Description: \"(?P<desc>.*)\"\n(?:\s+- Location: (?P<loc>[^\n]*)\n)?", re.M)
+CHECK_RE = re.compile(r"^Check \d+: (?P<id>\S+)\n\s+- Status: (?P<status>\w+)\n\s+- Description: \"(?P<desc>.*?)\"\n(?:\s+- Location: (?P<loc>[^\n]*)\n)?", re.M | re.S)
 
 
 def parse_kani_output(out):
@@ -139,7 +139,7 @@ def parse_kani_output(out):
         r["verdict"] = "FAILED"
     for m in CHECK_RE.finditer(out):
         r["n_checks"] += 1
-        cid, st, desc = m.group("id"), m.group("status"), m.group("desc")
+        cid, st, desc = m.group("id"), m.group("status"), " ".join(m.group("desc").split())
         if ".cover." in cid:
             r["covers"].append({"id": cid, "status": st, "desc": desc})
         elif st == "FAILURE" and desc.startswith("NaN on "):
@@ -150,6 +150,12 @@ def parse_kani_output(out):
             r["failed"].append({"id": cid, "status": st, "desc": desc, "loc": m.group("loc") or ""})
         elif st not in ("SUCCESS", "UNREACHABLE"):
             r["errors"] = r.get("errors", 0) + 1
+    if r["verdict"] == "FAILED" and not r["failed"]:
+        for fm in re.finditer(r"^Failed Checks: (.*?)\n File: \"([^\"]*)\", line (\d+), in (\S+)", out, re.M | re.S):
+            d = " ".join(fm.group(1).split())
+            if d.startswith("NaN on "):
+                continue
+            r["failed"].append({"id": "summary", "status": "FAILURE", "desc": d, "loc": f"{fm.group(2)}:{fm.group(3)} in function {fm.group(4)}"})
     m = re.search(r"(\d+) variables, (\d+) clauses", out)
     if m:
         r["vars"], r["clauses"] = int(m.group(1)), int(m.group(2))
